@@ -59,6 +59,9 @@ MUT = {
     "else-branch-in-names": lambda: sub(DS, '#ifdef SNOOPY_CONF_DATASOURCE_ENABLED_cwd\n    "cwd",\n#endif\n', '#ifdef SNOOPY_CONF_DATASOURCE_ENABLED_cwd\n    "cwd",\n#else\n    "cwd_disabled",\n#endif\n'),
     "lookup-loop-rewritten-wrongly": lambda: sub(GEN, "    for (int i=0 ; 0 != strcmp(regArray[i], \"\") ; i++) {\n        if (strcmp(regArray[i], itemName) == 0) {\n            return i;\n        }\n    }\n\n    /* Not found */\n    return -1;",
                                                  "    int found = -1;\n    for (int i=0 ; 0 != strcmp(regArray[i], \"\") ; i++) {\n        if (strcmp(regArray[i], itemName) == 0) {\n            found = i;\n        }\n    }\n    return found;"),
+    "dispatch-fallback-slot0": lambda: sub(OUT, "    return snoopy_outputregistry_callByName(CFG->output, logMessage, CFG->output_arg);",
+                                           "    int outputId = snoopy_outputregistry_getIdFromName(CFG->output);\n    if (outputId == -1) {\n        outputId = 0;\n    }\n    return snoopy_outputregistry_callById(outputId, logMessage, CFG->output_arg);"),
+    "extra-entry-point": lambda: sub(FL, "/*\n * getCount()\n", "int snoopy_filterregistry_callFirst (char const * const filterArg)\n{\n    return snoopy_filterregistry_ptrs[0](filterArg);\n}\n\n/*\n * getCount()\n"),
     "ext-option-parser-swapped": lambda: (sub("src/configfile.c", '{ "syslog_ident",                  { SNOOPY_CONFIGFILE_OPTION_TYPE_STRING, &snoopy_configfile_parseValue_syslog_ident, ', '{ "syslog_ident",                  { SNOOPY_CONFIGFILE_OPTION_TYPE_STRING, &snoopy_configfile_parseValue_syslog_level, ')),
     # --- harmless
     "harmless-nested-as-conjunction": lambda: (sub(DS, '#ifdef SNOOPY_CONF_THREAD_SAFETY_ENABLED\n#ifdef SNOOPY_CONF_DATASOURCE_ENABLED_snoopy_threads\n    "snoopy_threads",\n#endif\n#endif\n', '#if defined(SNOOPY_CONF_THREAD_SAFETY_ENABLED) && defined(SNOOPY_CONF_DATASOURCE_ENABLED_snoopy_threads)\n    "snoopy_threads",\n#endif\n'),
